@@ -26,6 +26,7 @@ import (
 	"sort"
 	"strings"
 	"sync"
+	"syscall"
 	"time"
 
 	recv "github.com/Dash-Industry-Forum/livesim2/cmd/cmaf-ingest-receiver/app"
@@ -339,6 +340,9 @@ func c19Child(args []string) {
 			os.RemoveAll(dir)
 		}
 		rr.Slow = c19SlowBody(r, filepath.Join(work, fmt.Sprintf("r%d-slow", round)), false)
+		if rr.Slow == "" && round%4 == 0 {
+			rr.Slow = c19SlowManifest(filepath.Join(work, fmt.Sprintf("r%d-slowmpd", round)))
+		}
 		if rr.Slow == "" {
 			rr.Slow = c19SlowBody(r, filepath.Join(work, fmt.Sprintf("r%d-slow2", round)), true)
 		}
@@ -560,6 +564,127 @@ func (g *gatedBody) Read(p []byte) (int, error) {
 // chunked transfer opens the request before the segment exists).  The channel is a renumbered one (incoming numbers and
 // times do not follow time / duration), so its start changes how uploads are numbered: in either sequential order of
 // "audio segment 1" and "video segment 1" the audio upload is accepted and stored.
+// c19SlowManifest: a track registers (first init upload) while the channel goroutine is writing manifest.mpd at the
+// start of the channel — the disk is slow: manifest.mpd is a FIFO whose reader shows up late.  In every sequential order
+// of these uploads the track is in the MPDs; it must be so here, too.
+func c19SlowManifest(dir string) string {
+	_ = os.MkdirAll(filepath.Join(dir, "s"), 0o755)
+	defer os.RemoveAll(dir)
+	fifo := filepath.Join(dir, "s", "manifest.mpd")
+	if err := syscall.Mkfifo(fifo, 0o600); err != nil {
+		return ""
+	}
+	// (a FIFO opened for reading and writing never blocks in open; it is filled up, so that the write blocks)
+	// (raw descriptor: through os.File a write to a full pipe would wait in the runtime poller instead of returning EAGAIN)
+	full, err := syscall.Open(fifo, syscall.O_RDWR|syscall.O_NONBLOCK, 0)
+	if err != nil {
+		return ""
+	}
+	defer syscall.Close(full)
+	junk := make([]byte, 4096)
+	for {
+		if _, err := syscall.Write(full, junk); err != nil {
+			break
+		}
+	}
+	ctx, cancel := context.WithCancel(context.Background())
+	defer cancel()
+	h, err := recv.VerifNewRouter(ctx, dir, 30, 0, nil, false)
+	if err != nil {
+		return ""
+	}
+	vInit, e1 := readAsset("testpic_2s/V300/init.mp4")
+	aInit, e2 := readAsset("testpic_2s/A48/init.mp4")
+	if e1 != nil || e2 != nil {
+		return ""
+	}
+	seg := func(src string, ts uint64, k int) []byte {
+		b, err := readAsset(fmt.Sprintf(src, k%4+1))
+		if err != nil {
+			return nil
+		}
+		f, err := mp4.DecodeFile(bytes.NewReader(b))
+		if err != nil {
+			return nil
+		}
+		fr := f.Segments[0].Fragments[0]
+		fr.Moof.Mfhd.SequenceNumber = uint32(100 + k)
+		dt := uint64(100+k) * 2 * ts
+		if ts == 48000 {
+			dt = dt / 1024 * 1024
+		}
+		fr.Moof.Traf.Tfdt.SetBaseMediaDecodeTime(dt)
+		var buf bytes.Buffer
+		_ = f.Segments[0].Encode(&buf)
+		return buf.Bytes()
+	}
+	stop := make(chan struct{})
+	var drained sync.WaitGroup
+	drain := func() { // the "disk": accepts the write late
+		defer drained.Done()
+		buf := make([]byte, 65536)
+		for {
+			_, _ = syscall.Read(full, buf) // non-blocking: empties whatever is in the pipe
+			select {
+			case <-stop:
+				return
+			case <-time.After(2 * time.Millisecond):
+			}
+		}
+	}
+	defer func() { close(stop); drained.Wait() }()
+	for _, u := range []c19Upload{{"/upload/s/v0/init.cmfv", vInit}, {"/upload/s/v0/100.cmfv", seg("testpic_2s/V300/%d.m4s", 90000, 0)},
+		{"/upload/s/v0/101.cmfv", seg("testpic_2s/V300/%d.m4s", 90000, 1)}} {
+		if code, p := c19Put(h, u); code >= 300 || p != "" {
+			return ""
+		}
+	}
+	time.Sleep(60 * time.Millisecond) // the channel goroutine has started the channel and waits for the disk
+	// (the uploads may have to wait for the MPD lock that the writer holds: they run beside the late disk)
+	audioRes := make(chan string, 1)
+	go func() {
+		for _, u := range []c19Upload{{"/upload/s/a0/init.cmfa", aInit}, {"/upload/s/a0/101.cmfa", seg("testpic_2s/A48/%d.m4s", 48000, 1)}} {
+			if code, p := c19Put(h, u); code >= 300 || p != "" {
+				audioRes <- fmt.Sprintf("PUT %s while manifest.mpd is being written is answered %d %s", u.path, code, p)
+				return
+			}
+		}
+		audioRes <- ""
+	}()
+	time.Sleep(60 * time.Millisecond)
+	drained.Add(1)
+	go drain()
+	select {
+	case w := <-audioRes:
+		if w != "" {
+			return w
+		}
+	case <-time.After(3 * time.Second):
+		return "the uploads of a track that registers while manifest.mpd is being written do not return after the write has completed"
+	}
+	time.Sleep(80 * time.Millisecond)
+	for k := 2; k < 7; k++ {
+		for _, u := range []c19Upload{{fmt.Sprintf("/upload/s/v0/%d.cmfv", 100+k), seg("testpic_2s/V300/%d.m4s", 90000, k)},
+			{fmt.Sprintf("/upload/s/a0/%d.cmfa", 100+k), seg("testpic_2s/A48/%d.m4s", 48000, k)}} {
+			if code, p := c19Put(h, u); code >= 500 || p != "" {
+				return fmt.Sprintf("PUT %s answered %d %s", u.path, code, p)
+			}
+			time.Sleep(10 * time.Millisecond)
+		}
+	}
+	time.Sleep(80 * time.Millisecond)
+	mb, err := os.ReadFile(filepath.Join(dir, "s", "manifest_timeline_nr.mpd"))
+	if err != nil {
+		return "no timeline MPD after a video and an audio track have delivered six rounds (the audio track registered while manifest.mpd was being written)"
+	}
+	for _, id := range []string{`id="v0"`, `id="a0"`} {
+		if !bytes.Contains(mb, []byte(id)) {
+			return fmt.Sprintf("the timeline MPD has no Representation %s: the track registered while manifest.mpd was being written at the channel start, its uploads were answered 2xx and are stored, but it is in no MPD (in every sequential order of the same uploads it is)", id)
+		}
+	}
+	return c17MpdMatchesStored(filepath.Join(dir, "s"))
+}
+
 func c19SlowBody(r *Rng, dir string, overlap bool) string {
 	_ = os.MkdirAll(dir, 0o755)
 	defer os.RemoveAll(dir)
